@@ -5,6 +5,7 @@ import (
 	"database/sql/driver"
 	"fmt"
 	"io"
+	"sort"
 	"strings"
 	"testing"
 	"testing/synctest"
@@ -236,7 +237,7 @@ func runC35(env *kernel.Env) {
 		if T.Bool(1, 3) {
 			k = T.Draw(nrows + 1)
 		}
-		switch T.Pick(6, 2, 2, 2, 2, 1, 3, 1, 1, 4) {
+		switch T.Pick(6, 2, 2, 2, 2, 1, 6, 1, 3, 4) {
 		case 9:
 			// statement shapes that take the handler's special result paths (at most
 			// one row, no rows, no table) and combinations of them in set operations
@@ -279,7 +280,21 @@ func runC35(env *kernel.Env) {
 		case 5:
 			return &c35Op{kind: "plan-error", q: "SELECT nope FROM big"}
 		case 6:
-			switch T.Draw(3) {
+			switch T.Pick(2, 2, 2, 3) {
+			case 3:
+				// a statement that fails while it executes (duplicate key on its second
+				// row): the error must reach the client and the connection must go on
+				// seeing current data
+				var ids []int64
+				for id := range wrows {
+					ids = append(ids, id)
+				}
+				sort.Slice(ids, func(i, j int) bool { return ids[i] < ids[j] })
+				dup := int64(1)
+				if len(ids) > 0 {
+					dup = ids[T.Draw(len(ids))]
+				}
+				return &c35Op{kind: "insert-dup", q: fmt.Sprintf("INSERT INTO w (id, x) VALUES (%d, 1),(%d, 2)", 9000+T.Draw(50), dup), exec: true, write: true}
 			case 0:
 				return &c35Op{kind: "insert", q: fmt.Sprintf("INSERT INTO w (x) VALUES (%d),(%d)", T.Draw(50), T.Draw(50)), exec: true, write: true}
 			case 1:
@@ -297,6 +312,19 @@ func runC35(env *kernel.Env) {
 		e := &engRes{isOk: true}
 		var a, b, k int64
 		switch op.kind {
+		case "insert-dup":
+			fmt.Sscanf(op.q, "INSERT INTO w (id, x) VALUES (%d, 1),(%d, 2)", &a, &b)
+			_, dupA := wrows[a]
+			if _, ok := wrows[b]; ok || dupA {
+				e.isOk, e.err = false, sql.NewUniqueKeyErr("dup", true, nil)
+			} else {
+				// the row was deleted meanwhile (or never existed): both rows go in
+				e.affected = 2
+				wrows[a], wrows[b] = 1, 2
+				if a >= nextAuto {
+					nextAuto = a + 1
+				}
+			}
 		case "insert":
 			fmt.Sscanf(op.q, "INSERT INTO w (x) VALUES (%d),(%d)", &a, &b)
 			e.affected, e.lastID = 2, nextAuto
@@ -319,12 +347,41 @@ func runC35(env *kernel.Env) {
 		}
 		return e
 	}
+	// checkW: with no write in flight the table w, read in process, is what the
+	// acknowledged writes of all connections add up to (a connection that kept a
+	// stale transaction open would commit its old copy over later writes)
+	checkW := func(after string) {
+		r := ip.exec("SELECT id, x FROM w ORDER BY id")
+		if r.err != nil {
+			return
+		}
+		var got, want []string
+		for _, row := range r.rows {
+			got = append(got, strings.Join(row, ":"))
+		}
+		var ids []int64
+		for id := range wrows {
+			ids = append(ids, id)
+		}
+		sort.Slice(ids, func(i, j int) bool { return ids[i] < ids[j] })
+		for _, id := range ids {
+			want = append(want, fmt.Sprintf("%d:%d", id, wrows[id]))
+		}
+		if strings.Join(got, " ") != strings.Join(want, " ") {
+			env.Fail("acknowledged-writes-stay", "committed-write-lost", "after %s table w holds [%s]; the writes acknowledged to the clients add up to [%s]", after, strings.Join(got, " "), strings.Join(want, " "))
+		}
+	}
 	finish := func(c *cl) {
 		op := c.cur
 		c.cur = nil
 		if op.write {
 			writeInFlight = false
 		}
+		defer func() {
+			if !writeInFlight && !env.Failed() && c.NetID >= 0 {
+				checkW(c.Name + " " + op.kind)
+			}
+		}()
 		env.Kind("ret:" + op.kind)
 		if op.res.Err != nil && c.NetID < 0 {
 			// the connection was reset while this statement was in flight: the client
@@ -543,6 +600,20 @@ func runC35(env *kernel.Env) {
 				op.expect = expectWrite(op)
 			} else if op.prepared {
 				op.expect = ip.exec(strings.Replace(op.q, "?", fmt.Sprint(op.args[0]), 1))
+			} else if op.kind == "select-w" {
+				// from the model of w, not from the engine: what earlier statements of
+				// any connection wrote must be there (a connection that kept a stale
+				// transaction would overwrite it)
+				e := &engRes{cols: []string{"id", "x"}}
+				var ids []int64
+				for id := range wrows {
+					ids = append(ids, id)
+				}
+				sort.Slice(ids, func(i, j int) bool { return ids[i] < ids[j] })
+				for _, id := range ids {
+					e.rows = append(e.rows, []string{fmt.Sprint(id), fmt.Sprint(wrows[id])})
+				}
+				op.expect = e
 			} else if op.kind != "sleep" {
 				op.expect = ip.exec(op.q)
 			} else {
